@@ -100,16 +100,20 @@ def formatTime(
 
     @param when: A timestamp.
     @param timeFormat: A time format.
-    @param default: Text to return if C{when} or C{timeFormat} is L{None}.
+    @param default: Text to return if C{when} or C{timeFormat} is L{None}, or
+        if C{when} cannot be represented as a date and time.
 
     @return: A formatted time.
     """
     if timeFormat is None or when is None:
         return default
     else:
-        tz = FixedOffsetTimeZone.fromLocalTimeStamp(when)
-        datetime = DateTime.fromtimestamp(when, tz)
-        return str(datetime.strftime(timeFormat))
+        try:
+            tz = FixedOffsetTimeZone.fromLocalTimeStamp(when)
+            datetime = DateTime.fromtimestamp(when, tz)
+            return str(datetime.strftime(timeFormat))
+        except (ArithmeticError, OSError, TypeError, ValueError):
+            return default
 
 
 def formatEventAsClassicLogText(
@@ -337,16 +341,19 @@ def _formatSystem(event: LogEvent) -> str:
     """
     system = cast(Optional[str], event.get("log_system", None))
     if system is None:
-        level = cast(Optional[NamedConstant], event.get("log_level", None))
-        if level is None:
-            levelName = "-"
-        else:
-            levelName = level.name
+        try:
+            level = cast(Optional[NamedConstant], event.get("log_level", None))
+            if level is None:
+                levelName = "-"
+            else:
+                levelName = level.name
 
-        system = "{namespace}#{level}".format(
-            namespace=cast(str, event.get("log_namespace", "-")),
-            level=levelName,
-        )
+            system = "{namespace}#{level}".format(
+                namespace=cast(str, event.get("log_namespace", "-")),
+                level=levelName,
+            )
+        except Exception:
+            system = "UNFORMATTABLE"
     else:
         try:
             system = str(system)
